@@ -176,7 +176,9 @@ pub fn run_case(u: &Universe, case: &Value) -> Vec<Value> {
             Ok(tr4) => o["combine_leaves"] = leaves_json(&tr4, &names),
             Err(_) => o["combine_leaves"] = json!([]),
         }
-        // commitment
+        // commitment (its own stage: a panic here must not hide what parsing produced)
+        let stage2 = catch_unwind(AssertUnwindSafe(|| -> Value {
+        let mut o = json!({});
         let si = tr.spend_info();
         let root = si.merkle_root();
         o["root"] = json!(root.and_then(|h| names.by_hash.get(&h).cloned()).unwrap_or_else(|| "UNKNOWN".into()));
@@ -205,6 +207,23 @@ pub fn run_case(u: &Universe, case: &Value) -> Vec<Value> {
             }));
         }
         o["spend"] = json!(spend);
+        o
+        }));
+        match stage2 {
+            Ok(o2) => {
+                for (k, v) in o2.as_object().unwrap() {
+                    o[k] = v.clone();
+                }
+                o["spend_panic"] = json!(false);
+            }
+            Err(_) => {
+                o["spend_panic"] = json!(true);
+                o["root"] = json!("PANIC");
+                o["output_key_ok"] = json!(false);
+                o["spk_ok"] = json!(false);
+                o["spend"] = json!([]);
+            }
+        }
         Ok(o)
     }));
     match r {
